@@ -36,6 +36,8 @@ def main():
     for act in ("DidOpen", "DidChange", "DidOpenNonFile", "SemTok", "UnknownReq", "UnknownNotif", "ClientResponse", "Shutdown", "Exit"):
         if live["coverage"].get(act, 0) == 0:
             raise vlib.ToolError("action %s never taken in MC_Lsp_live" % act)
+    vlib.deviation_caught("Lsp.tla", "DEV_Lsp_DropUnknownRequest.cfg", "NoPendingAtRest", cov)
+    vlib.deviation_caught("Lsp.tla", "DEV_Lsp_CrashOnResponse.cfg", "Survives", cov)
     cov["actions_taken"] = {k: v for k, v in live["coverage"].items() if k[0].isupper()}
     # texts 1, 2 of the C12 alphabet: a valid document and one with a lexical error (null token result)
     texts = {1: doctexts.T_VALID, 2: doctexts.T_LEX}
